@@ -184,6 +184,38 @@ func vpC31Fill(seed uint64, n int) []byte {
 	return buf
 }
 
+// vpC31Kept remembers the last messages Receive returned in the running case
+// together with what had been sent: a delivered message must stay what it was
+// when later frames arrive on the same connection (the node queues received
+// messages for its handlers and for the next hop while it keeps receiving).
+type vpC31KeptMsg struct {
+	msg  *TransportMessage
+	want []byte
+}
+
+var vpC31Kept []vpC31KeptMsg
+
+func vpC31Keep(msg *TransportMessage, want []byte) {
+	vpC31Kept = append(vpC31Kept, vpC31KeptMsg{msg, want})
+	if len(vpC31Kept) > 3 {
+		vpC31Kept = vpC31Kept[len(vpC31Kept)-3:]
+	}
+}
+
+func vpC31CheckKept(after int) error {
+	for i, k := range vpC31Kept {
+		if int(k.msg.Size) != len(k.want) || !bytes.Equal(k.msg.Data, k.want) {
+			j := 0
+			for j < len(k.want) && j < len(k.msg.Data) && k.want[j] == k.msg.Data[j] {
+				j++
+			}
+			return fmt.Errorf("a delivered frame of %d bytes (%d frames ago) changed after a later frame of %d bytes was received on the connection: size %d, %d data bytes, first difference at %d",
+				len(k.want), len(vpC31Kept)-i, after, k.msg.Size, len(k.msg.Data), j)
+		}
+	}
+	return nil
+}
+
 // vpC31Transfer sends data from src and receives it at dst with the given
 // limit. A violation is returned as a plain error, trouble as *vpC31Trouble.
 // wantReject: the frame is larger than the limit, the receiver must refuse it
@@ -290,7 +322,11 @@ func vpC31Transfer(src, dst *QuicClient, data []byte, limit uint32) error {
 	if r2.msg == nil || !bytes.Equal(r2.msg.Data, trailer) {
 		return fmt.Errorf("the frame following a %d byte frame was not delivered intact", len(data))
 	}
-	return nil
+	if err := vpC31CheckKept(len(data)); err != nil {
+		return err
+	}
+	vpC31Keep(r.msg, data)
+	return vpC31CheckKept(len(trailer))
 }
 
 // vpC31OversizeHeader writes a raw header announcing `announced` bytes
@@ -548,8 +584,8 @@ func (r *vpC31Run) settle(rt *rapid.T, err error) bool {
 }
 
 func TestVP_C31_frame_roundtrip(t *testing.T) {
-	c := kit.New(t, "C31", "rapid: per case a fresh loopback QUIC pair and 3..8 drawn steps: frames of 1 B..4 MiB (thorough: ..32 MiB, incl. max-1/max) with seed-derived content in either direction through Send -> Receive; receiveWithLimit with a drawn limit and frame sizes at limit-1/limit/limit+1; raw headers announcing limit+1..2^32-1 bytes followed by a valid frame; Send of max+1.. bytes; a frame of which only 0..n-1 bytes are written before the sender finishes its stream (last step of a pair). Oracle: a truncated frame is never delivered as a message; identical bytes/size/version; over-limit refused with the size verdict, no message, body left unread on the stream, < 8 MiB allocated for announcements > 32 MiB; Send refuses > max and writes nothing. non-trivial = frame >= 64 KiB delivered or a refusal observed; distinct by (step kind, size, seed, limit)")
-	c.Require("roundtrip", "limit-accept", "limit-reject", "oversize-header", "send-refused", "bad-limit", "truncated",
+	c := kit.New(t, "C31", "rapid: per case a fresh loopback QUIC pair and 3..8 drawn steps: frames of 1 B..4 MiB (thorough: ..32 MiB, incl. max-1/max) with seed-derived content in either direction through Send -> Receive; receiveWithLimit with a drawn limit and frame sizes at limit-1/limit/limit+1; raw headers announcing limit+1..2^32-1 bytes followed by a valid frame; Send of max+1.. bytes; a frame of which only 0..n-1 bytes are written before the sender finishes its stream (last step of a pair); bursts of 2..3 frames (mostly >= 1 MiB) in one direction. Oracle: the last three delivered messages of the case are compared again with what was sent after every later delivery (a delivered message does not change when later frames arrive); a truncated frame is never delivered as a message; identical bytes/size/version; over-limit refused with the size verdict, no message, body left unread on the stream, < 8 MiB allocated for announcements > 32 MiB; Send refuses > max and writes nothing. non-trivial = frame >= 64 KiB delivered or a refusal observed; distinct by (step kind, size, seed, limit)")
+	c.Require("roundtrip", "burst", "burst-of-large-frames", "limit-accept", "limit-reject", "oversize-header", "send-refused", "bad-limit", "truncated",
 		"size<=64B", "size<=64KiB", "size<=1MiB", "size<=4MiB", "dir-dialer-sends", "dir-acceptor-sends")
 	if kit.Thorough() {
 		c.Require("size>4MiB")
@@ -562,6 +598,8 @@ func TestVP_C31_frame_roundtrip(t *testing.T) {
 			return
 		}
 		steps := rapid.IntRange(3, 8).Draw(rt, "steps")
+		vpC31Kept = nil
+		defer func() { vpC31Kept = nil }()
 		pair, err := vpC31NewPair()
 		if !run.settle(rt, err) {
 			return
@@ -573,7 +611,7 @@ func TestVP_C31_frame_roundtrip(t *testing.T) {
 			src, dst := pair.ends(dir)
 			dirClass := []string{"dir-dialer-sends", "dir-acceptor-sends"}[dir]
 			seed := rapid.Uint64().Draw(rt, l+"seed")
-			switch rapid.SampledFrom([]string{"roundtrip", "roundtrip", "roundtrip", "limit", "limit", "oversize-header", "send-refused", "bad-limit", "truncated"}).Draw(rt, l+"op") {
+			switch rapid.SampledFrom([]string{"roundtrip", "roundtrip", "roundtrip", "burst", "limit", "limit", "oversize-header", "send-refused", "bad-limit", "truncated"}).Draw(rt, l+"op") {
 			case "roundtrip":
 				n := vpC31Size(rt, l+"size")
 				if !run.settle(rt, vpC31Transfer(src, dst, vpC31Fill(seed, n), TransportMessageMaxSize)) {
@@ -581,6 +619,36 @@ func TestVP_C31_frame_roundtrip(t *testing.T) {
 				}
 				c.Case(fmt.Sprintf("rt-%d-%d-%d", dir, n, seed), n >= 64<<10, "roundtrip", vpC31SizeClass(n), dirClass)
 				c.Sample(map[string]any{"step": "roundtrip", "bytes": n, "dir": dir})
+			case "burst":
+				// 2..3 frames in one direction; every delivered message is compared
+				// again after the later ones have been received
+				count := rapid.IntRange(2, 3).Draw(rt, l+"burst")
+				n0 := rapid.OneOf(rapid.IntRange(1<<20, 4<<20), rapid.SampledFrom([]int{1 << 20, 1<<20 + 1, 2 << 20, 3<<20 + 17})).Draw(rt, l+"burst_size")
+				if rapid.IntRange(0, 3).Draw(rt, l+"burst_any") == 0 {
+					n0 = vpC31Size(rt, l+"size")
+				}
+				large := 0
+				for b := 0; b < count; b++ {
+					n := n0
+					switch rapid.IntRange(0, 3).Draw(rt, fmt.Sprintf("%sburst_%d", l, b)) {
+					case 0:
+						n = n0/2 + 1
+					case 1:
+						n = vpC31Size(rt, fmt.Sprintf("%sburst_size_%d", l, b))
+					}
+					if n >= 1<<20 {
+						large++
+					}
+					if !run.settle(rt, vpC31Transfer(src, dst, vpC31Fill(seed+uint64(b), n), TransportMessageMaxSize)) {
+						return
+					}
+				}
+				cls := []string{"burst", dirClass}
+				if large >= 2 {
+					cls = append(cls, "burst-of-large-frames")
+				}
+				c.Case(fmt.Sprintf("burst-%d-%d-%d-%d", dir, count, n0, seed), true, cls...)
+				c.Sample(map[string]any{"step": "burst", "frames": count, "bytes": n0, "dir": dir})
 			case "limit":
 				limit := rapid.OneOf(rapid.SampledFrom([]int{1, 2, 6, 100, 4096, 1 << 16, 1 << 20}), rapid.IntRange(1, 2<<20)).Draw(rt, l+"limit")
 				n := rapid.OneOf(rapid.SampledFrom([]int{limit - 1, limit, limit + 1, limit + 2, 2 * limit}), rapid.IntRange(1, 2*limit+2)).Draw(rt, l+"size")
